@@ -73,6 +73,8 @@ class Engine(ExprMixin, StmtMixin):
         self.spec_builtins = _lib.make_spec_builtins(self)
         self.depth = 0
         self.join_mode = 0
+        self.externals = {}
+        self.cur_call_node = None
         _abs.install_spec_builtins(self)
         _lt.install_spec_builtins(self)
 
@@ -166,6 +168,10 @@ class Engine(ExprMixin, StmtMixin):
         key = f"{m.relpath}::{name}"
 
         def fn(args, kwargs, st, eng):
+            if key in eng.externals:
+                eng.used_trusted.add(f"assumed-contract:{key}")
+                r = eng.externals[key](args, kwargs, st, eng)
+                return r if isinstance(r, list) else [(st, r)]
             if eng.spec_depth:
                 return eng.pure_call(fi, None, args, kwargs, st)
             c = eng.contracts.get(key)
